@@ -144,9 +144,11 @@ const (
 	opEcho
 	opSibling
 	nOps
+	// opHugeAppend is not part of the alphabet (one application moves 10 MB): it is used in two fixed sequences
+	opHugeAppend
 )
 
-var opNames = []string{"append2", "fragment", "complete-fragment", "long-line", "rotate", "truncate+write", "long-fragment", "remove+create", "line-as-long-as-the-last-fragment", "sibling-files-change"}
+var opNames = []string{"append2", "fragment", "complete-fragment", "long-line", "rotate", "truncate+write", "long-fragment", "remove+create", "line-as-long-as-the-last-fragment", "sibling-files-change", "", "append-10MB-in-one-write"}
 
 type world struct {
 	fs       *memFS
@@ -220,6 +222,23 @@ func (w *world) apply(k opKind) {
 			w.pending = ""
 		}
 		w.want = append(w.want, l)
+		w.send(fsnotify.Write, live)
+	case opHugeAppend:
+		// a burst: 80 000 lines of 128 bytes (more than 8 MiB, more than any per-event budget one would pick)
+		// appended in one write, one event
+		var b strings.Builder
+		pad := strings.Repeat("h", 100)
+		for i := 0; i < 80000; i++ {
+			l := fmt.Sprintf("%s-%s-%07d", w.line(), pad, i)
+			if i == 0 && w.pending != "" {
+				w.want = append(w.want, w.pending+l)
+				w.pending = ""
+			} else {
+				w.want = append(w.want, l)
+			}
+			b.WriteString(l + "\n")
+		}
+		w.fs.files[live] = append(w.fs.files[live], []byte(b.String())...)
 		w.send(fsnotify.Write, live)
 	case opSibling:
 		// things happen next to the live file that are not its business: an old rotation is compressed
@@ -602,6 +621,12 @@ func runC20(t *testing.T, run *mc.Run) int {
 					}
 				}
 			}
+		}
+	}
+	for _, seq := range [][]opKind{{opAppend2, opHugeAppend}, {opFragment, opHugeAppend, opRotate, opAppend2}} {
+		n++
+		if m := runCase(t, small[0], seq); m != "" {
+			report(small[0], seq, m)
 		}
 	}
 	for _, d := range big {
